@@ -77,6 +77,9 @@ impl ProgProperty for C02 {
         }
         (r.back_edges > 0 && !r.events.is_empty()) || scan || memz || temps > 2
     }
+    fn fuzz_target(&self) -> Option<&'static str> {
+        Some("prog_bc")
+    }
     fn floors(&self, tier: Tier) -> Vec<(&'static str, u64)> {
         let q = if tier == Tier::Quick { 1 } else { 25 };
         vec![("nontrivial", 6000 * q), ("bytecode-has-scan", 1500 * q), ("bytecode-has-spilled-temp", 1000 * q), ("long-run(>=200k canonical steps)", 100 * q)]
